@@ -18,7 +18,7 @@ from .common import Check, Driver, proof_stage, rng_for
 
 PROP = "C02"
 MODULE = "PV.Props.C02"
-THEOREMS = [f"PV.Props.C02.{t}" for t in ["comment_is_invisible", "compact_tokens_same_value", "label_is_next_instruction_index", "pragma_equals_api"]]
+THEOREMS = [f"PV.Props.C02.{t}" for t in ["comment_is_invisible", "compact_tokens_same_value", "label_is_next_instruction_index", "pragma_equals_api", "remove_labels_preserves_behaviour"]]
 
 # which options may vary freely per profile (the others are fixed to the value given)
 STREAMS = {
